@@ -11,3 +11,9 @@ import Ymq.Props.C04Shape
 #print axioms Ymq.C04Shape.shape_adds_exactly
 #print axioms Ymq.C04Shape.source_shapes_ok
 #print axioms Ymq.C04Shape.sched_inv_any_programs
+#print axioms Ymq.C04Shape.qs_adds_exactly
+#print axioms Ymq.C04Shape.qs_block_interleaving
+#print axioms Ymq.C04Shape.ecm_flag_sound
+#print axioms Ymq.C04Shape.source_named_ok
+#print axioms Ymq.C04Shape.source_fork_ok
+#print axioms Ymq.C04Shape.source_ecm_unit_ok
